@@ -168,8 +168,9 @@ static void handle(int argc, char **argv) {
             parse_bytes(ref, rlen, -1, 0, NULL, &e1, &d1);
             parse_bytes(ref, rlen, 20, 0, NULL, &e2, &d2);
             free(cache_key); for (i = 0; i < 4; i++) free(cache[i]);
-            cache_key = strdup(argv[6]);
-            cache[0] = strdup(e1); cache[1] = strdup(d1); cache[2] = strdup(e2); cache[3] = strdup(d2);
+            /* the cache outlives the request on purpose: not a leak of this request */
+            VERIF_UNTRACKED(cache_key = strdup(argv[6]));
+            VERIF_UNTRACKED(cache[0] = strdup(e1); cache[1] = strdup(d1); cache[2] = strdup(e2); cache[3] = strdup(d2));
         }
         OUT("dl enc=%s conv=%s sys=%s dconv=%s v1=%d ver=%d nu8=%d rc=%d err=%s as1=%d as2=%d e1=%s e2=%s cif=%s",
             t.enc, t.conv, canonical_name(NULL), canonical_name(dflt), t.v1, t.seen ? t.ver : 0, t.nu8, rc, (errs && *errs) ? errs : "-",
